@@ -11,6 +11,7 @@ LEVEL = "proof"
 COQ_FILES = ["Tie/C18_defs.v", "Tie/C18_tie.v", "Props/C18_props.v"]
 PROPS_FILES = ["C18_props.v"]
 TRUSTED_BASE = [
+    "vlib/symex.py (symbolic execution of the translated Python subset on the ast: the translator reads value / outcome trees, so local names, intermediates, helpers and the form of branches do not matter; its assumptions - pure expressions, opaque calls, no aliasing writes, try handlers not modelled - are listed in DESIGN.md 12.7; fail-closed)",
     "py2gallina unit 'batchwise': the view / reduction axes of NormUnetModel2d.norm/unnorm, NormUnetModel3d.norm/unnorm and NormConv2dGRU.norm/unnorm (reshape arguments, mean/std axes, keepdim, reshape back), the axis arguments of StandardizationLayer.forward, and the attribute stores inside every forward method under direct/nn are regenerated on every run; the bodies must match a fixed statement pattern or the translation fails closed",
     "coq/Model/C18.v (hand model): a contiguous batch is the concatenation of its samples and reshape(b, groups, -1) cuts it in rows of length c*h*w/groups; tied to torch.reshape by exact correspondence of the row sums on integer-valued tensors",
     "torch's convolutions, instance/batch norm in eval mode and activations act per sample (oracle contract); the convolutional bodies are exercised by the single-vs-batched oracle on the whole zoo, not proved",
